@@ -318,6 +318,25 @@ type TsDemux struct {
 	idx    int
 	// OnPsi is called for every PAT/PMT packet with the packet index.
 	PsiIdx []int
+	PmtLog []PmtAt // every PMT seen, with the index of its TS packet
+}
+
+// PmtAt is one PMT occurrence in the demuxed stream.
+type PmtAt struct {
+	Idx int
+	Pmt Psi
+}
+
+// PmtInForce returns the last PMT that precedes TS packet idx (ok=false if none).
+func (d *TsDemux) PmtInForce(idx int) (Psi, bool) {
+	var out Psi
+	ok := false
+	for _, p := range d.PmtLog {
+		if p.Idx < idx {
+			out, ok = p.Pmt, true
+		}
+	}
+	return out, ok
 }
 
 func NewTsDemux() *TsDemux {
@@ -384,6 +403,7 @@ func (d *TsDemux) feedPacket(b []byte) {
 			}
 			d.PmtSeen, d.Pmt = true, s
 			d.PmtCount++
+			d.PmtLog = append(d.PmtLog, PmtAt{d.idx, s})
 			for _, st := range s.Streams {
 				d.StreamTypes[st.PID] = st.StreamType
 			}
